@@ -1,14 +1,24 @@
 #!/usr/bin/env python3
-"""replay.py <replay file>: re-execute one recorded behaviour on the real crate and show expected vs observed."""
+"""replay.py <replay file>: re-execute one recorded behaviour on the real crate and show expected vs observed.
+Sequential records (rxreplay): the stimulus sequence is replayed in the recorded form (and virtual time unit).
+Thread records (rxthreads): the recorded schedule (sequence of thread grants) is replayed on real threads."""
 import json, sys, os, subprocess, tempfile
 V = os.path.dirname(os.path.dirname(os.path.abspath(__file__)))
 rec = json.load(open(sys.argv[1]))
 d = tempfile.mkdtemp(prefix="rxreplay-", dir=os.path.join(V, "cache"))
-json.dump({"cases": [dict(prog=rec["prog"], off=rec["off"], cfg=rec["cfg"], forms=rec["form"], cmp="global")]}, open(d + "/cases.json", "w"))
+subprocess.run(["cargo", "build", "--offline", "--bins", "-q"], cwd=V + "/harness")
+if "example" in rec:      # a thread case: {case, outcome, example: {sched, events}}
+    json.dump({"cases": [rec["case"]]}, open(d + "/cases.json", "w"))
+    sched = ",".join(str(t) for t in rec["example"]["sched"])
+    print("recorded outcome:", json.dumps(rec["outcome"]))
+    subprocess.run([V + "/harness/target/debug/rxthreads", "--cases", d + "/cases.json", "--case", "1", "--replay", sched, "--out", d + "/out.json"])
+    sys.exit(0)
+case = dict(prog=rec["prog"], off=rec["off"], cfg=rec["cfg"], forms=rec["form"], cmp="global")
+if rec.get("unit_ns"): case["units"] = [rec["unit_ns"]]
+json.dump({"cases": [case]}, open(d + "/cases.json", "w"))
 exp = rec.get("expected") or [s["o"] for s in rec["steps"]]
 steps = [dict(s=s["s"], o=exp[i] if i < len(exp) else s["o"]) for i, s in enumerate(rec["steps"])]
 open(d + "/in.ndjson", "w").write(json.dumps(dict(c=1, bad=[], steps=steps)) + "\n")
-subprocess.run(["cargo", "build", "--offline", "--bins", "-q"], cwd=V + "/harness")
 subprocess.run([V + "/harness/target/debug/rxreplay", "--cases", d + "/cases.json", "--in", d + "/in.ndjson", "--out", d + "/out.json",
                 "--mismatch", d + "/mism.ndjson"])
 print(open(d + "/mism.ndjson").read() or "observed = recorded expectation")
